@@ -86,3 +86,33 @@ def validate(ctx, pid_mode, runs):
         ctx.coverage["traces_validated_against_impl"] += st["plans"] - bad
         ctx.coverage["evaluations"] += st["events"]
     return plans
+
+
+def gated_replay(ctx, q, cfg):
+    """spec -> impl: ClientMux behaviours sampled by TLC (simulation mode, history variable of action labels) are
+    single-stepped on the three real clients through the probes cm_allocated / cm_registered / cm_written (callers)
+    and cm_reader_read (reader); after every step the size of the pending map, and at every Take the caller's
+    result, must equal the specification's.  With the fault configuration the server also closes or sends a
+    malformed frame, and fail_all_pending is stepped through cm_fail_start / cm_fail_mid (writer shut, THEN pending
+    map drained), with callers registering and writing in between."""
+    import json
+    n = 300 if q else 3000
+    beh = ctx.tlc_generate("MC_ClientMuxGen", cfg, ["ClientMux.tla"], timeout=1200,
+                           extra_args=["-simulate", f"num={n}", "-depth", "80", "-seed", str(ctx.seed)])
+    total = {"behaviours": 0, "steps": 0}
+    for kind in ("sync", "async", "ws"):
+        out = ctx.work / f"replay-{kind}-{cfg}.json"
+        ctx.vh("mux-replay", "--client", kind, "--behaviours", beh, "--out", out, timeout=1500)
+        r = json.loads(out.read_text())
+        total["behaviours"] += r["behaviours"]
+        total["steps"] += r["steps"]
+        for f in r["failures"]:
+            step = f["what"].split(":")[0]
+            label = step.split(" ")[2].split("(")[0] if len(step.split(" ")) > 2 else "?"
+            ctx.violation(f"mux-replay:{kind}:{label}", f"{kind} client, replaying a ClientMux behaviour: {f['what']}", f)
+        if r["behaviours"] < n // 2 and not r["failures"]:
+            raise vlib.ToolError(f"only {r['behaviours']} behaviours replayed on the {kind} client")
+    ctx.coverage["gated_replay"] = total
+    ctx.coverage["traces_validated_against_impl"] += total["behaviours"]
+    ctx.coverage["evaluations"] += total["steps"]
+    ctx.assume("the probes park a caller after id allocation, after registration and after its write, and the reader after each frame it read; the harness lets exactly one of them proceed per specification step")
